@@ -27,7 +27,7 @@ pub fn c01(rep: &mut Report, cfg: &Cfg) {
     lock.full_every = 512;
     let judge = Judge::FULL.only(super::common::is_mov);
     let forms = gen::forms_of(Group::Mov);
-    let per_form = cfg.share(cfg.n(12_000, 600_000));
+    let per_form = cfg.share(cfg.n(12_000, 3_000_000));
     for pat in &forms {
         let probe = decode_words(&fill(pat, &Fields { s: 1, d: 2, x: 3, ..Default::default() }));
         let pool = gen::data_pool(probe.sz);
@@ -94,7 +94,7 @@ pub fn c04(rep: &mut Report, cfg: &Cfg) {
     let judge = Judge::FULL.only(super::common::is_bit);
     let forms = gen::forms_of(Group::Bit);
     let mut work = 0u64;
-    let reps = cfg.n(1, 6);
+    let reps = cfg.n(1, 40);
     for pat in &forms {
         let probe = decode_words(&fill(pat, &Fields { s: 1, d: 2, x: 3, ..Default::default() }));
         let form = probe.form();
@@ -215,7 +215,7 @@ pub fn c08(rep: &mut Report, cfg: &Cfg) {
             forms.push(pat);
         }
     }
-    let per_form = cfg.share(cfg.n(2_500, 60_000));
+    let per_form = cfg.share(cfg.n(2_500, 400_000));
     for pass in 0..2u32 {
         let mut lock = Lock::new(Some(pass));
         lock.full_every = if cfg.tier_thorough { 16 } else { 64 };
@@ -264,7 +264,7 @@ pub fn c08(rep: &mut Report, cfg: &Cfg) {
     // (byte / word view, ADDS, INC), access again with the same mode, register and displacement.
     // Every step is judged in lock step from the real machine's state, so an effective address
     // derived from stale state shows at the second access.
-    let chains = cfg.share(cfg.n(4_000, 150_000));
+    let chains = cfg.share(cfg.n(4_000, 800_000));
     for _ in 0..chains {
         let seed = rng.next();
         chain_session(rep, seed, false);
@@ -338,7 +338,7 @@ pub fn c20(rep: &mut Report, cfg: &Cfg) {
     lock.judge_cost = true;
     let judge = Judge::COST;
     let settings = bus_settings(&mut cfg.rng("bus"));
-    let per_form = cfg.share(cfg.n(4_000, 100_000));
+    let per_form = cfg.share(cfg.n(4_000, 600_000));
     for (_, pat) in gen::FORMS {
         for k in 0..per_form {
             let mut o = BuildOpts::default();
